@@ -63,6 +63,10 @@ def _drive(args):
         pan = ''.join(r.choice('0123456789') for _ in range(12 + tid % 8))
         idx = tid % 10
         key = bytes(r.randrange(256) for _ in range((8, 16, 24)[tid % 3]))
+        if tid % 7 == 4:
+            # keys with structure: triple length with K1 = K2 (DES under K3), K1 = K3, K2 = K3; double length with equal halves
+            k1, k3 = bytes(r.randrange(256) for _ in range(8)), bytes(r.randrange(256) for _ in range(8))
+            key = (k1 + k1 + k3, k1 + k3 + k1, k3 + k1 + k1, k1 + k1)[(tid // 7) % 4]
         kind, out_ = call(lambda: pinblock.calculate_pvv(pin, key.hex(), idx, pan))
         e = pev('pvv', pin, pan, idx=idx, key=key, kind=kind, out=pinc.safe_digits(out_) if kind == 'ok' else ())
         if kind != 'ok':
@@ -115,13 +119,15 @@ def _drive(args):
             # refused input first: whatever happens to it must not leak into the calls that follow
             call(lambda: keymod.get_zone_master_key(parts[0].hex(), 'not hexadecimal at all' + 'z' * 10))
             call(lambda: pinblock.calculate_pvv('12x4', key.hex(), idx, pan))
-        for ps in variants:
-            kind, out_ = call(lambda: keymod.get_zone_master_key(*[p.hex() for p in ps]))
+        for vi, ps in enumerate(variants):
+            # components as they are written on key forms: lower case, UPPER CASE, mixed
+            spell = (lambda h: h, lambda h: h.upper(), lambda h: ''.join(c.upper() if i % 3 else c for i, c in enumerate(h)))[(tid + vi) % 3]
+            kind, out_ = call(lambda: keymod.get_zone_master_key(*[spell(p.hex()) for p in ps]))
             ev.append(pev('zmk', parts=ps, kind=kind, out=nib(out_[0]) if kind == 'ok' else ()))
             if kind == 'ok':
                 clear = bytes.fromhex(out_[0])
                 ev.append(pev('kcv', key=clear, n=len(out_[1]), kind='ok', out=nib(out_[1])))
-        kind, out_ = call(lambda: keymod.get_enc_zone_master_key(mk.hex(), *[p.hex() for p in parts]))
+        kind, out_ = call(lambda: keymod.get_enc_zone_master_key(mk.hex().upper() if tid % 2 else mk.hex(), *[p.hex().upper() if tid % 4 == 1 else p.hex() for p in parts]))
         ev.append(pev('enczmk', key=mk, parts=parts, kind=kind, out=nib(out_[0]) if kind == 'ok' else ()))
         out.append({'tid': tid, 'events': ev, '_desc': 'PVV for a PIN of %d digits, PAN of %d digits, %d-byte key; %d key components'
                     % (n, len(pan), len(key), len(parts))})
